@@ -132,7 +132,7 @@ def find_region(text, within, start, end):
 
 
 def cut_slice(text, sl):
-    parts = [CFG, sl["header"] + " {", sl.get("pre", "")]
+    parts = ([sl["items"]] if sl.get("items") else []) + [CFG, sl["header"] + " {", sl.get("pre", "")]
     meta = {"name": sl["name"], "file": sl["file"], "regions": [], "drops": sl.get("drops", "")}
     glue = sl.get("between", [])
     for idx, rg in enumerate(sl["regions"]):
@@ -159,7 +159,85 @@ def cut_slice(text, sl):
 # ------------------------------------------------------------------------------------------------
 # The slices.  Free variables of a region become parameters / prologue locals of the wrapper.
 # ------------------------------------------------------------------------------------------------
+FEN_SCAN_ITEMS = CFG + """
+#[derive(Clone, Copy)]
+pub(crate) struct VerifFenScan {
+    pub row: i8, pub col: i8, pub hash: u64, pub score: Score,
+    pub board: [Option<Piece>; 64], pub past_scores: [Score; 64], pub past_hashes: [u64; 64],
+    pub white_king_pos: Option<Position>, pub black_king_pos: Option<Position>,
+}"""
+
 SLICES = [
+    {
+        "name": "verif_fen_rank",
+        "file": "chess/mod.rs",
+        "within": r"^\s*pub fn fen\(&self\) -> String",
+        "header": "impl Game { pub(crate) fn verif_fen_rank(&self, row: i8, result: &mut String)",
+        "regions": [{"start": r"^\s*for row in \(0\.\.8\)\.rev\(\) \{", "end": ("block",), "inner": True}],
+        "post": "}",
+        "drops": "`let mut result = String::new()` and the `for row in (0..8).rev()` header (rank 8 first): glue",
+    },
+    {
+        "name": "verif_fen_fields",
+        "file": "chess/mod.rs",
+        "within": r"^\s*pub fn fen\(&self\) -> String",
+        "header": "impl Game { pub(crate) fn verif_fen_fields(&self, result: &mut String)",
+        "regions": [{"start": r"^\s*// Add current player", "end": ("until", r"^\s*result\s*$")}],
+        "post": "}",
+        "drops": "the board loop before it and the final `result` expression",
+    },
+    {
+        "name": "verif_fen_step",
+        "file": "chess/mod.rs",
+        "within": r"^\s*pub fn new\(fen: &str\)",
+        "items": FEN_SCAN_ITEMS,
+        "header": "impl Game { pub(crate) fn verif_fen_step(character: char, st: &mut VerifFenScan, piece_scores: &[Cell<&'static [i16; 64]>; 6]) -> anyhow::Result<()>",
+        "pre": "let VerifFenScan { mut row, mut col, mut hash, mut score, mut board, mut past_scores, mut past_hashes, mut white_king_pos, mut black_king_pos } = *st;\n"
+               "for _once in 0..1 {",
+        "regions": [{"start": r"^\s*for character in pieces\.chars\(\) \{", "end": ("block",), "inner": True}],
+        "post": "}\n*st = VerifFenScan { row, col, hash, score, board, past_scores, past_hashes, white_king_pos, black_king_pos };\nOk(()) }",
+        "drops": "split_ascii_whitespace, the declarations before the loop, the `for character in pieces.chars()` header, the `row != 0 || col != 8` test after it",
+    },
+    {
+        "name": "verif_fen_side",
+        "file": "chess/mod.rs",
+        "within": r"^\s*pub fn new\(fen: &str\)",
+        "header": "impl Game { pub(crate) fn verif_fen_side(next_player: &str) -> anyhow::Result<Player>",
+        "regions": [{"start": r"^\s*let current_player = match next_player", "end": ("block",)}],
+        "post": "Ok(current_player) }",
+        "drops": "the `let Some(next_player) = terms.next()` line and the side-key XOR after it",
+    },
+    {
+        "name": "verif_fen_castling",
+        "file": "chess/mod.rs",
+        "within": r"^\s*pub fn new\(fen: &str\)",
+        "header": "impl Game { pub(crate) fn verif_fen_castling(castling_rights: &str, state_in: GameState) -> anyhow::Result<GameState>",
+        "pre": "let mut state = state_in;",
+        "regions": [{"start": r"^\s*for right in castling_rights\.chars\(\) \{", "end": ("block",)}],
+        "post": "Ok(state) }",
+        "drops": "the `let Some(castling_rights) = terms.next()` line",
+    },
+    {
+        "name": "verif_fen_ep",
+        "file": "chess/mod.rs",
+        "within": r"^\s*pub fn new\(fen: &str\)",
+        "header": "impl Game { pub(crate) fn verif_fen_ep(en_passant: &str, state_in: GameState, current_player: Player) -> anyhow::Result<GameState>",
+        "pre": "let mut state = state_in;",
+        "regions": [{"start": r'^\s*if en_passant != "-" \{', "end": ("block",)}],
+        "post": "Ok(state) }",
+        "drops": "the `let Some(en_passant) = terms.next()` line",
+    },
+    {
+        "name": "verif_fen_tail",
+        "file": "chess/mod.rs",
+        "within": r"^\s*pub fn new\(fen: &str\)",
+        "header": "impl Game { pub(crate) fn verif_fen_tail(board: [Option<Piece>; 64], past_scores: [Score; 64], past_hashes: [u64; 64], "
+                  "piece_scores: [Cell<&'static [i16; 64]>; 6], white_king_pos: Option<Position>, black_king_pos: Option<Position>, "
+                  "current_player: Player, score: Score, hash: u64, state: GameState) -> anyhow::Result<Self>",
+        "regions": [{"start": r"^\s*let Some\(white_king_pos\) = white_king_pos else \{", "end": ("until", r"^\s*Ok\(game\)")}],
+        "post": "Ok(game) }",
+        "drops": "everything before the king-presence tests",
+    },
     {
         "name": "verif_position_step",
         "file": "uci.rs",
